@@ -4,8 +4,8 @@ import (
 	"fmt"
 
 	"github.com/ethereum/go-ethereum/ethdb/memorydb"
-	tk "verif/harness/triekit"
 	tl "verif/harness/tracelib"
+	tk "verif/harness/triekit"
 )
 
 // randomKV draws a key-value set over 64-nibble keys with shared prefixes (so that
